@@ -19,7 +19,8 @@ BOUNDS = {
     'quick': 'mesh n1d in {2,3,4} (odd and even); bin_kmu: Nk in {1,2} free increasing k edges (> 0, anywhere below or above Nyquist), '
              'mu edges [0, m, 1] with free m or [0,1]; poles in {(), (0,2), (0,2,4)}; bin_kppi: Nk in {1,2}, free pimax, Npi in {1,2}; '
              'fourier in {T,F}; nthread in {1,2} (2 only for n1d<=3); mesh values free reals; thread ids free per prange iteration; '
-             'see items() for the exact combinations',
+             'see items() for the exact combinations'
+             '; also: multipole sets (2,0), (4,2,0), (2,4), (2,0,4), (0,1,2,3,4), (1,3); ambient numba thread count 1 with nthread=2',
     'thorough': 'n1d in {2..6}; Nk up to 3; nthread up to 3; more (mu, poles, Npi) combinations',
 }
 OUTSIDE = 'modes lying exactly on a bin edge (the property does not fix open/closed ends: excluded by assumption); float32 rounding ' \
